@@ -34,13 +34,20 @@ func init() {
 			"deliveries are held inside Deliver by a BeforeMessageStored listener while the other sessions transmit within-limit and oversized messages " +
 			"(one by one or in parallel goroutines), then released; lo > limit => not 2xx, hi <= limit => 250; afterwards every stored message must equal, " +
 			"behind the three trace-header lines, what its accepted session transmitted, and no token of a refused message may occur in any stored source " +
-			"or metadata, nor in any file of the file store's directory.",
+			"or metadata, nor in any file of the file store's directory. " +
+			"Stall stream (after seeded change C06-11): limit in {100,1000,65536,1000000} x mem/file by case index; one oversized message without a (too large) SIZE is sent in two parts, " +
+			"the first ending far beyond / just beyond / within 3 bytes of / well before the limit, on a line boundary or inside a line; when the session is blocked in Read the read " +
+			"deadline is made to expire once or twice (one case in eight: not at all), then - if the connection is still open - the rest follows: filler, then on lines of their own " +
+			"MAIL FROM / RCPT TO / DATA / a small message addressed to a mailbox used nowhere else, then the final dot. Whatever the replies: every mailbox stays empty and (file) no " +
+			"file of the store directory contains the outer or inner token; the last reply after the final dot is not 2xx; a session still open has given at most two replies since 354, " +
+			"answers NOOP with exactly one reply and carries the follow-up transaction; without an expiry exactly one non-2xx reply and the session stays open.",
 		Assumptions: []string{
 			"the acceptance side is only asserted for messages that start with a well-formed header block (Deliver may answer 451 otherwise)",
 			"sizes between lo and hi of the limit are don't-care, so a pure off-by-one in the comparison is not decidable",
 			"non-numeric SIZE values: the MAIL reply is observed, not judged",
 			"a follow-up MAIL answered 503 is retried after RSET (a server may keep the failed transaction open); only a follow-up that still fails is a violation",
 			"sessions run through VerifServeConn on an in-memory net.Conn",
+			"stall stream: the idle timeout is injected as a deadline error of the pending Read on the in-memory connection (sut.QConn.FireReadTimeout), not waited for; a session the server ends at the expiry owes nothing further",
 			"overlap stream: the listener that holds a delivery returns nil (no opinion), so the address policy decides exactly as without it; only DATA-phase refusals are produced there",
 		},
 		MinObs: func(tier string) map[string]int64 {
@@ -52,10 +59,16 @@ func init() {
 				"mail_size_over_limit": 150 * f, "refused_at_data": 300 * f, "refused_at_mail": 150 * f, "accepted_and_stored": 200 * f,
 				"followups_stored": 300 * f, "followups_usable_only": 30 * f, "distinct_nontrivial": 300,
 				"overlap_cases": 70 * f, "overlap_held_deliveries": 120 * f, "overlap_refused_while_held": 150 * f, "overlap_accepted_while_held": 40 * f,
-				"overlap_stored_identical": 250 * f, "overlap_parallel_rounds": 30 * f, "overlap_disk_files_scanned": 100 * f}
+				"overlap_stored_identical": 250 * f, "overlap_parallel_rounds": 30 * f, "overlap_disk_files_scanned": 100 * f,
+				"stall_cases": 110 * f, "stall_deadline_expiries": 100 * f, "stall_expiry_beyond_limit": 70 * f, "stall_store_found_empty": 110 * f,
+				"stall_control_cases": 12 * f, "stall_inside_a_line": 30 * f, "stall_disk_scans": 55 * f,
+				"stall_where:beyond-far": 30 * f, "stall_where:beyond-near": 30 * f, "stall_where:around": 12 * f, "stall_where:before": 12 * f}
 			for _, l := range limits {
 				for _, b := range []string{"mem", "file"} {
 					m[fmt.Sprintf("config:%d/%s", l, b)] = 50 * f
+					if l >= 100 {
+						m[fmt.Sprintf("stall_config:%d/%s", l, b)] = 14 * f
+					}
 				}
 				if l >= 100 {
 					m[fmt.Sprintf("refused_at_data:limit=%d", l)] = 30 * f
@@ -73,6 +86,7 @@ func run(c *fw.Ctx) {
 	c.Cases("conn", n, func(i int, r *fw.Rand) { runConn(c, i, r) })
 	c.Cases("starttls", c.N(40, 400), func(i int, r *fw.Rand) { runStartTLS(c, i, r) })
 	c.Cases("overlap", c.N(80, 640), func(i int, r *fw.Rand) { runOverlap(c, i, r) })
+	c.Cases("stall", c.N(128, 1024), func(i int, r *fw.Rand) { runStall(c, i, r) })
 }
 
 // probe is one test message with its SIZE declaration.
